@@ -173,6 +173,11 @@ func runDirect(t *rapid.T, r *rec.Recorder) {
 	case regAdded:
 		other := voucherDenom("transfer", "channel-77", "c16other")
 		mintTo(a, ctx, holder, sdk.NewCoins(sdk.NewInt64Coin(other, 5)))
+		if canHold && amountOK && rapid.Bool().Draw(t, "receiverHoldsFirstDenomination") {
+			// the receiver also holds plain vouchers of the pair's FIRST denomination: they are not what this receive converts
+			mintTo(a, ctx, recv.Acc, sdk.NewCoins(sdk.NewCoin(other, amount.AddRaw(rapid.Int64Range(0, 9).Draw(t, "firstDenominationExtra")))))
+			setup = append(setup, "receiver holds vouchers of the pair's first denomination")
+		}
 		p2, err := registerCoin(a, ctx, other)
 		kit.Must(err, "RegisterCoin other")
 		kit.Must(addCoin(a, ctx, credited, p2.GetERC20Contract()), "AddCoin")
